@@ -330,8 +330,13 @@ func binop(op token.Token, t types.Type, x, y value) value {
 	}
 	// fast concrete integer path
 	if xu, kx, ok := intInfo(x); ok {
-		if yu, ky, ok := intInfo(y); ok && kx == ky {
-			if r, ok := concIntBinop(op, xu, yu, kx); ok {
+		if yu, ky, ok := intInfo(y); ok {
+			if kx == ky {
+				if r, ok := concIntBinop(op, xu, yu, kx); ok {
+					return r
+				}
+			}
+			if r, ok := concIntBinop2(op, xu, kx, yu, ky); ok {
 				return r
 			}
 		}
@@ -429,6 +434,23 @@ func unop(instr *ssa.UnOp, x value) value {
 // typeAssert checks whether dynamic type of itf is instr.AssertedType.
 // It returns the extracted value on success, and panics on failure,
 // unless instr.CommaOk, in which case it always returns a "value,ok" tuple.
+type assertKey struct {
+	t  types.Type
+	to types.Type
+}
+
+var assertCache = map[assertKey]string{}
+
+func cachedCheckInterface(i *interpreter, to types.Type, idst *types.Interface, x iface) string {
+	k := assertKey{x.t, to}
+	if r, ok := assertCache[k]; ok {
+		return r
+	}
+	r := checkInterface(i, idst, x)
+	assertCache[k] = r
+	return r
+}
+
 func typeAssert(i *interpreter, instr *ssa.TypeAssert, itf iface) value {
 	var v value
 	err := ""
@@ -437,9 +459,9 @@ func typeAssert(i *interpreter, instr *ssa.TypeAssert, itf iface) value {
 
 	} else if idst, ok := instr.AssertedType.Underlying().(*types.Interface); ok {
 		v = itf
-		err = checkInterface(i, idst, itf)
+		err = cachedCheckInterface(i, instr.AssertedType, idst, itf)
 
-	} else if types.Identical(itf.t, instr.AssertedType) {
+	} else if itf.t == instr.AssertedType || types.Identical(itf.t, instr.AssertedType) {
 		v = itf.v // extract value
 
 	} else {
